@@ -216,7 +216,11 @@ func (e *kvElection) handleHeartbeatFailure(err error) {
 		)...,
 	)
 
-	e.becomeFollower()
+	if !e.becomeFollower() {
+		// Leadership was already given up through another path (or the
+		// election was stopped); the demotion callback belongs to that path.
+		return
+	}
 
 	e.mu.RLock()
 	onDemote := e.onDemote
@@ -241,7 +245,11 @@ func (e *kvElection) handleHealthCheckFailure() {
 		)...,
 	)
 
-	e.becomeFollower()
+	if !e.becomeFollower() {
+		// Leadership was already given up through another path (or the
+		// election was stopped); the demotion callback belongs to that path.
+		return
+	}
 
 	e.mu.RLock()
 	onDemote := e.onDemote
